@@ -129,6 +129,21 @@ reg(
     "DESIGN.md §3 C12",
 )
 
+reg(
+    "C13", "exploration",
+    "metamorphic monitor (parse result under layout transforms) + robustness fuzz of RailsConfig.from_path with an exception-type oracle and a logical step budget on the parser modules",
+    "(a) every shipped .co file (185) and generated valid programs of both Colang versions are parsed by the real parser before and after blank-line / whitespace-only-line / trailing-space / trailing-tab / end-of-line-comment (2.x) / indentation x2,x3 / combined transforms; the parse results must be equal modulo positions. (b) ~6000 (thorough 80000) character/line/truncation mutations of shipped files and token soups from the grammar's terminals (valid Unicode incl. NUL, BOM, U+2028, CRLF) are loaded with RailsConfig.from_path: the outcome must be a config or ColangParsingError naming the file; hangs are decided by a per-file logical step budget (>=50x the maximum seen on valid files) on the repository's parser modules and lark's lexer/LALR driver.",
+    "trusts the normaliser (positions/source text stripped, v1 comments kept as semantic) and the generators of valid programs; a hang inside one C-level regex match is invisible to the step counter (wall-clock watchdog = inconclusive)",
+    "DESIGN.md §3 C13",
+)
+reg(
+    "C14", "exploration",
+    "differential runtime monitor: compute_next_steps vs. a reference interpreter of the generated AST, plus used-instance vs. fresh-instance comparison",
+    "2400 (thorough 12000) generated Colang 1.0 programs (user/bot steps, set, if/else if/else, bounded while, break/continue, do subflow, execute with/without result) x 24 history runs each through the real parser, coyml conversion, sliding and compute_next_steps: at every turn that follows a flow the decided steps must equal the reference interpreter's (obligations cease where the history leaves the flow); all histories are replayed on the same flow_configs object in two orders and on a fresh object and must give identical event traces; every call runs under a logical step budget.",
+    "trusts the generator-based reference interpreter (sequencing, conditions, assignment, subflow call/return); competing intents, when/else when, goto/labels are outside the property's structured subset",
+    "DESIGN.md §3 C14",
+)
+
 NOT_BUILT_REASON = "check not built yet in this revision (claimed by DESIGN.md; see §5 order of work)"
 
 
